@@ -60,7 +60,7 @@ func c05(c *core.Check) {
 	c05EscapedSet(c)
 	c05SliceGuards(c)
 	c05HexEscapes(c)
-	r13 := c.Rule("R13", "a rule weighs as its most specific matching selector: the consumer of the selector lists (html/tree.matcher.match) tests every selector of a list and records a result for each one that matches, with that selector's own specificity (shared with C03.R7)", 3)
+	r13 := c.Rule("R13", "a rule weighs as its most specific matching selector: the consumer of the selector lists (html/tree.matcher.match) tests every selector of a list and records a result for each one that matches, with that selector's own specificity (shared with C03.R7)", 1)
 	c03Matcher(c, r13)
 	rArgs := c.Rule("R11", "no call passes two same-typed arguments under each other's parameter names (swapped arguments): every pair of arguments named after the callee's parameters is aligned with them", 7)
 	argNameRule(c, rArgs, "css/selector", nil, 8)
@@ -163,7 +163,7 @@ func c05(c *core.Check) {
 	}
 
 	// ---- R3 specificity constants
-	r3 := c.Rule("R3", "Specificity() of each simple selector kind is the Selectors-4 constant: type (0,0,1); class, attribute and pseudo-class (0,1,0); id (1,0,0); a pseudo-element adds (0,0,1); :is/:not/:has take the maximum (by Less) of their arguments; compound and combined selectors add", 8)
+	r3 := c.Rule("R3", "Specificity() of each simple selector kind is the Selectors-4 constant: type (0,0,1); class, attribute and pseudo-class (0,1,0); id (1,0,0); a pseudo-element adds (0,0,1); :is/:not/:has take the maximum (by Less) of their arguments; compound and combined selectors add", 6)
 	specT := p.Obj(pkg, "Specificity")
 	wantSpec := map[string][3]int64{"tagSelector": {0, 0, 1}, "classSelector": {0, 1, 0}, "idSelector": {1, 0, 0}, "attrSelector": {0, 1, 0}, "abstractPseudoClass": {0, 1, 0}, "neverMatchSelector": {0, 1, 0}}
 	var tnames []string
@@ -229,7 +229,7 @@ func c05(c *core.Check) {
 	divisionRule(c, r5, inPkgs("css/selector"))
 
 	// ---- R6 dispatch tables
-	r6 := c.Rule("R6", "dispatch tables are the Selectors tables: combinator ' ' descendant, '>' child, '+' adjacent sibling, '~' general sibling; attribute operators = ~= |= ^= $= *= call the equality, whitespace-list, dash, prefix, suffix and substring predicates; first/last-child, first/last-of-type are nth(0,1) with the matching (last, ofType); nth-* names set last/ofType by name", 19)
+	r6 := c.Rule("R6", "dispatch tables are the Selectors tables: combinator ' ' descendant, '>' child, '+' adjacent sibling, '~' general sibling; attribute operators = ~= |= ^= $= *= call the equality, whitespace-list, dash, prefix, suffix and substring predicates; first/last-child, first/last-of-type are nth(0,1) with the matching (last, ofType); nth-* names set last/ofType by name", 17)
 	if cm != nil && cmSw != nil {
 		info := p.InfoOf(cm)
 		want := map[string][2]string{"32": {"descendantMatch", ""}, "62": {"childMatch", ""}, "43": {"siblingMatch", "true"}, "126": {"siblingMatch", "false"}}
@@ -439,7 +439,7 @@ func c05(c *core.Check) {
 	}
 
 	// ---- R8 empty value matches nothing
-	r8 := c.Rule("R8", "the substring (^= $= *=) and word (~=) predicates cannot return true when the selector's value is empty: every non-false return is unreachable under the scenario val == \"\"", 4)
+	r8 := c.Rule("R8", "the substring (^= $= *=) and word (~=) predicates cannot return true when the selector's value is empty: every non-false return is unreachable under the scenario val == \"\"", 2)
 	for _, name := range []string{"attributePrefixMatch", "attributeSuffixMatch", "attributeSubstringMatch", "matchInclude"} {
 		fn := p.Fn(pkg, name)
 		if fn == nil {
@@ -492,7 +492,7 @@ func c05(c *core.Check) {
 	}
 
 	// ---- R10 CSS white space in word matching; element type comparison
-	r10 := c.Rule("R10", "class and ~= matching split the attribute on the five CSS white space characters only (space, tab, LF, CR, FF); the *-of-type pseudo-classes compare element names (Node.Data), since the atom of every unknown element is 0", 6)
+	r10 := c.Rule("R10", "class and ~= matching split the attribute on the five CSS white space characters only (space, tab, LF, CR, FF); the *-of-type pseudo-classes compare element names (Node.Data), since the atom of every unknown element is 0", 5)
 	// :empty ignores document white space only (Selectors 4): the text of a child is trimmed with the five characters,
 	// never with strings.TrimSpace (Unicode white space: a no-break space would make an element empty)
 	if em := p.Method(pkg, "emptyElementPseudoClassSelector", "Match"); em == nil {
